@@ -35,7 +35,111 @@ class C10:
     budgets = {"quick": 1500, "thorough": 50000}
     warm_refinement = True
 
+    def gen_synthetic(self, rnd):
+        """a disparity map / validity mask written down directly (invalid pixels anywhere, or nowhere at all)"""
+        big = rnd.random() < 0.1
+        rows, cols = (rnd.randint(51, 110), rnd.randint(51, 120)) if big else (rnd.randint(3, 20), rnd.randint(3, 22))
+        filters = []
+        for _ in range(rnd.randint(1, 3)):
+            f = programs.p_filter(rnd, {"rows": rows, "cols": cols}, methods=("median", "bilateral", "median", "mfi"))
+            if f["filter_method"] == "mfi":
+                f = {"filter_method": "median_for_intervals", "interval_indicator": rnd.choice(["", "ib", "a.b"])}
+                if rnd.random() < 0.7:
+                    f["filter_size"] = rnd.choice([1, 3, 5])
+            filters.append(f)
+        sc = {"harness": "synthetic", "rows": rows, "cols": cols, "data_seed": rnd.getrandbits(32),
+              "p_flag": rnd.choice([0.0, 0.0, 0.03, 0.1, 0.3, 0.9]), "p_nan_valid": rnd.choice([0.0, 0.0, 0.0, 0.02, 0.1]),
+              "fractional": rnd.random() < 0.5, "value_range": rnd.choice([2, 5, 40]), "filters": filters}
+        if not big:
+            sc["knobs"] = {"median_chunk": rnd.choice([1, 2, 3, 5, 7, 50, 100]),
+                           "bilateral_chunk": rnd.choice([1, 2, 3, 5, 7, 50, 100])}
+        return sc
+
+    def exec_synthetic(self, sc):
+        import numpy as np
+        import xarray as xr
+        from pandora import filter as pfilter
+        from sim import knobs as knobs_, probes
+        from sim.pipeline import Ctx
+
+        rows, cols = sc["rows"], sc["cols"]
+        g = np.random.Generator(np.random.PCG64(sc["data_seed"]))
+        vr = sc["value_range"]
+        disp = g.integers(-vr, vr + 1, size=(rows, cols)).astype(np.float32)
+        if sc["fractional"]:
+            disp = disp + (g.integers(0, 4, size=(rows, cols)) / 4).astype(np.float32)
+        flags = np.zeros((rows, cols), dtype=np.uint16)
+        u = g.random((rows, cols))
+        invalid_values = np.array([1, 2, 64, 128, 256, 512, 3, 66, 260], dtype=np.uint16)
+        sel = u < sc["p_flag"]
+        flags[sel] = g.choice(invalid_values, size=int(sel.sum()))
+        info = (g.random((rows, cols)) < 0.2) & ~sel
+        flags[info] = g.choice(np.array([4, 8, 16, 32, 2048, 12], dtype=np.uint16), size=int(info.sum()))
+        nanv = (g.random((rows, cols)) < sc["p_nan_valid"]) & ~sel
+        disp[nanv] = np.nan  # a pixel flagged valid without disparity (what sgm filling can leave behind)
+        disp[sel] = -9999
+        labels = []
+        for f in sc["filters"]:
+            if f["filter_method"] == "median_for_intervals":
+                sfx = "." + f["interval_indicator"] if f["interval_indicator"] else ""
+                for lab in ("confidence_from_interval_bounds_inf" + sfx, "confidence_from_interval_bounds_sup" + sfx):
+                    if lab not in labels:
+                        labels.append(lab)
+        ds = xr.Dataset({"disparity_map": (["row", "col"], disp), "validity_mask": (["row", "col"], flags)},
+                        coords={"row": np.arange(rows), "col": np.arange(cols)})
+        if labels:
+            labels = ["confidence_from_ambiguity"] + labels
+            conf = g.integers(-vr, vr + 1, size=(rows, cols, len(labels))).astype(np.float32)
+            conf[g.random(conf.shape) < 0.05] = np.nan
+            ds["confidence_measure"] = xr.DataArray(conf, dims=["row", "col", "indicator"], coords={"indicator": labels})
+        ds.attrs = {"offset_row_col": 0}
+        knobs_.set_knobs(sc.get("knobs"))
+
+        class Rec:
+            def __init__(self):
+                self.violations = []
+
+            def violation(self, cls, **detail):
+                self.violations.append({"class": cls, **detail})
+
+        class Machine:
+            left_img = ds
+            step = 1
+
+        rec = Rec()
+        ctx = Ctx.__new__(Ctx)
+        ctx.cov, ctx.probes, ctx.params, ctx.cfg = {}, {}, {}, {"pipeline": {}}
+        mon = FilterMonitor(ctx, rec)
+        for i, f in enumerate(sc["filters"]):
+            name = f"filter.{i}"
+            inst = pfilter.AbstractFilter(cfg=dict(f), image_shape=(rows, cols), step=1)
+            ctx.params[name] = dict(f)
+            ctx.cfg["pipeline"][name] = dict(inst.cfg)
+            ev = {"name": name, "seq": i, "kind": "filter", "phase": "run"}
+            pre = probes.snap_ds(ds, probes.DISP_VARS)
+            copies = [ds.copy(deep=True) for _ in range(2)]
+            try:
+                inst.filter_disparity(ds)
+            except ValueError as e:
+                ctx.cov["skipped:run:ValueError@" + str(e)[:30]] = 1
+                break
+            post = probes.snap_ds(ds, probes.DISP_VARS)
+            mon.check_side(ev, "left", f["filter_method"], ctx.cfg["pipeline"][name], pre, post)
+            mon.block_independence(ev, "left", ctx.cfg["pipeline"][name], copies, ds, Machine)
+            ctx.cov["filter_events_checked"] = ctx.cov.get("filter_events_checked", 0) + 1
+        pr = dict(ctx.probes)
+        pr["synthetic_map"] = 1
+        pr["synthetic_map_without_any_invalid_pixel"] = int(not sel.any())
+        pr["valid_pixel_without_disparity"] = int(bool(nanv.any()))
+        return {"violations": rec.violations, "cov": ctx.cov, "probes": pr,
+                "shape": harness.jdump(["synthetic", [f["filter_method"] for f in sc["filters"]], sc["p_flag"],
+                                        sc["p_nan_valid"], sc.get("knobs"), rows // 8, cols // 8]),
+                "digest": probes.digest_dataset(ds), "steps": len(sc["filters"]),
+                "evaluations": 1 if ctx.cov.get("filter_events_checked") else 0}
+
     def generate(self, rnd, index, tier):
+        if rnd.random() < 0.3:
+            return self.gen_synthetic(rnd)
         prof = dict(PROFILE)
         large = rnd.random() < 0.06
         if large:
@@ -63,6 +167,8 @@ class C10:
         return sc
 
     def execute(self, sc):
+        if sc.get("harness") == "synthetic":
+            return self.exec_synthetic(sc)
         res = pipeline.execute(sc, [lambda ctx, rec: FilterMonitor(ctx, rec)])
         rec, ctx = res["rec"], res["ctx"]
         viol = list(rec.violations)
@@ -88,6 +194,28 @@ class C10:
         }
 
     def simplify(self, sc):
+        if sc.get("harness") == "synthetic":
+            import copy
+
+            out = []
+            for i in range(len(sc["filters"])):
+                if len(sc["filters"]) > 1:
+                    c = copy.deepcopy(sc)
+                    del c["filters"][i]
+                    out.append(c)
+            for k in ("rows", "cols"):
+                if sc[k] > 3:
+                    c = copy.deepcopy(sc)
+                    c[k] = max(3, sc[k] // 2)
+                    out.append(c)
+            for k, v in (("p_nan_valid", 0.0), ("fractional", False), ("knobs", None)):
+                if sc.get(k):
+                    c = copy.deepcopy(sc)
+                    c[k] = v
+                    if v is None:
+                        c.pop(k)
+                    out.append(c)
+            return out
         return pipeline.simplify_pipeline(sc, min_rows=3, min_cols=4)
 
     def describe(self):
